@@ -20,8 +20,10 @@ Theorem C14_basic_result_has_its_line :
     basic_line (EvScen f r s rt (ScBg st y)) = [RLStep (match y with StPassed => 1 | StFailed _ => 2 | _ => 3 end) true st].
 Proof. intros f r s rt st y H. destruct y; try congruence; split; reflexivity. Qed.
 
-(* libtest: once parsing has finished, a step event yields exactly one line of the kind of its status, named
-   after feature / rule / scenario / attempt / step; a failed hook and a parser error yield a started+failed pair *)
+(* libtest: once parsing has finished, a step event yields exactly one line of the kind of its status whose name tuple
+   has the feature, scenario, kind and step at positions 0, 4, 8, 9 (the rule and attempt components of the name are
+   covered by the whole-document theorems below, through `lt_fact`); a failed hook and a parser error yield a
+   started+failed pair of one (here unconstrained) name *)
 Theorem C14_libtest_step_line :
   forall has_path w f r s rt st y,
     exists nm, snd (lt_expand has_path w (EvScen f r s rt (ScStep st y))) =
@@ -89,7 +91,8 @@ Proof. vm_compute. reflexivity. Qed.
 (* LIBTEST, THE WHOLE OF C14 on the stream the writer receives (it sits behind Normalize): if the stream is accepted by
    the sequential contract (so run-Finished, if any, is last), contains ParsingFinished (until then the writer only
    buffers), every step Started is followed by its own result before any other step event (`steps_bracketed`) and all
-   features have a path (K14a otherwise), then the report states EXACTLY the facts of the stream, in order, every
+   features have a path (K14a otherwise), then the report states EXACTLY the facts of the stream (as a multiset in this statement; the order of the fact lines is
+   `C14_libtest_facts_in_order` below), every
    started line has exactly one result line of the same name, and the totals and the verdict agree with the entries.
    ReportersP3 shows by witnesses that none of the hypotheses can be dropped. *)
 Theorem C14_libtest_whole_document :
@@ -124,8 +127,9 @@ Theorem C14_json_whole_document :
 Proof. exact c14_json_normalized. Qed.
 Print Assumptions C14_json_whole_document.
 
-(* the facts half holds for EVERY event list (contract-abiding or not, with or without paths): the document built so
-   far states a permutation of the facts of the events handled so far *)
+(* the facts half holds for every event list whose feature ids are non-zero (`fids_nonzero`: 0 is the model's code for
+   "no feature"), contract-abiding or not, with or without paths: the document built so far states a permutation of
+   the facts of the events handled so far *)
 Theorem C14_json_facts_of_any_list :
   forall has_path handled, fids_nonzero handled = true ->
     Permutation.Permutation
@@ -156,7 +160,8 @@ Print Assumptions C14_basic_whole_document.
 (* JUNIT, THE WHOLE OF C14: for every complete stream accepted by the sequential contract: one testcase per finished
    attempt, in order, classified by exactly that attempt's events; the Errors suites list the parser errors in order;
    and — when no attempt is classified skipped (K14c otherwise: the listing of a skipped case is dropped) — the listings
-   inside the testcases state the step results and failed hooks of the stream, in order *)
+   inside the testcases state the step results and failed hooks of the stream (as a multiset in `c14_junit_ok`; that each
+   listing stands in the testcase of its own scenario and feature is `C14_junit_attributed` below) *)
 Theorem C14_junit_cases_are_the_attempts :
   forall es, normalized es = true ->
     junit_cases (junit_doc es) false = attempt_outcomes es /\
@@ -223,8 +228,8 @@ Theorem C14_junit_end_to_end :
 Proof. exact ReportersP5.C14_junit_end_to_end. Qed.
 Print Assumptions C14_junit_end_to_end.
 
-(* pass-through events (run-Started, ParsingFinished, parser errors) keep their relative order through Normalize — for
-   EVERY event list, no contract needed *)
+(* the parser errors keep their relative order through Normalize — for EVERY event list, no contract needed (stated for
+   the parser errors only; run-Started and ParsingFinished are single events) *)
 Theorem C14_parser_errors_keep_their_order :
   forall es, ReportersP4.perrs (ReportersP5.ns_of es) = ReportersP4.perrs (ReportersP5.raw_of es).
 Proof. exact ReportersP5.parse_errors_order_preserved. Qed.
